@@ -2155,10 +2155,13 @@ def expr_is_float_lower(op1, op2):
     sign1, sign2 = op1.msb(), op2.msb()
     magn1, magn2 = op1[:-1], op2[:-1]
     return ExprCond(sign1 ^ sign2,
-                    # Sign different, only the sign matters
-                    sign1, # sign1 ? op1 < op2 : op1 >= op2
-                    # Sign equals, the result is inversed for negatives
-                    sign1 ^ (expr_is_unsigned_lower(magn1, magn2)))
+                    # Sign different, only the sign matters (-0.0 is not lower
+                    # than +0.0)
+                    ExprCond(magn1 | magn2, sign1, ExprInt(0, 1)),
+                    # Sign equals, the magnitudes are swapped for negatives
+                    ExprCond(sign1,
+                             expr_is_unsigned_lower(magn2, magn1),
+                             expr_is_unsigned_lower(magn1, magn2)))
 
 
 def expr_is_float_equal(op1, op2):
